@@ -30,6 +30,78 @@ def run(ctx):
                         n_ok += 1
             if n_ok:
                 ctx.record('C03:wilson:critical-value-from-the-oracle', 'M', 'held', bound='structural, all Ok paths of ci_wilson', sample={'obligation': 'every Ok path of ci_wilson applies Zq in this call', 'paths': n_ok})
+            rank_terms(ctx, m)
         except mir.Stuck as e:
             m.stuck('C03:M', 'unsupported construct: %s' % e)
         m.finish()
+
+
+def rank_terms(ctx, m):
+    """Engine M on quantile::Stats::ci / index for EVERY population n (the K harnesses decide n <= 12 and a grid): with ci_wilson
+    replaced by a symbolic Ok(TwoSided(lo, hi)), the ranks are syntactically min(floor(p*n) as usize, n-1) of the Wilson bounds,
+    ci_wilson receives (confidence, n, round(q*n) as usize), and the rejections are exactly the documented ones."""
+    from mirsmt import engine as E, term as T, mir
+    from props.common_m import KNAME, VARIANT
+    cands = [g for g in m.fns if g.short == 'ci' and 'quantile' in g.name and '<impl at' in g.name and len(g.args) == 3]
+    if len(cands) != 1:
+        m.stuck('C03:rank-terms', 'cannot identify quantile::Stats::ci in the MIR dump')
+        return
+    n, q = T.var('n', 'i'), T.var('q')
+    LO, HI = T.var('WLO'), T.var('WHI')
+    rec = []
+    orig = m.models.dispatch
+
+    def dispatch(mach, st, fid, callee, argv):
+        if callee.split('::')[-1] == 'ci_wilson':
+            rec.append((list(st['pc']), argv))
+            return [(None, ('adt', 'Result', 0, [('adt', 'Interval', 0, [('f', LO), ('f', HI)])])), (None, ('adt', 'Result', 1, [('adt', 'CIError', mir.VARIANTS['CIError'].index('TooFewSuccesses'), [('i', T.var('e1', 'i')), ('i', T.var('e2', 'i')), ('f', T.var('e3'))])]))]
+        return orig(mach, st, fid, callee, argv)
+    m.models.dispatch = dispatch
+    try:
+        ref, extra = E.self_ref(('adt', 'Stats', 0, [('i', n)]))
+        res = m.run(cands[0], [ref, E.confidence(), ('f', q)], extra)
+    finally:
+        m.models.dispatch = orig
+    bad = [r for r in res if r.kind == 'stuck']
+    if bad:
+        m.stuck('C03:rank-terms', bad[0].value[1])
+        return
+    nf = T.mk('i2f', n)
+    want_succ = T.mk('f2i', T.mk('fround', T.mk('fmul', q, nf)))
+    idx = lambda p: T.mk('imin', T.mk('f2i', T.mk('ffloor', T.mk('fmul', p, nf))), T.mk('isub', n, T.iconst(1)))
+    ok_args = bool(rec) and all(a[1][0] == 'i' and a[1][1] == n and a[2][0] == 'i' and a[2][1] == want_succ and a[0][0] == 'symenum' for _, a in rec)
+    if ok_args:
+        ctx.record('C03:rank-terms:wilson-arguments', 'M', 'held', bound='syntactic, every n', sample={'obligation': 'Stats::ci calls ci_wilson(confidence, n, round(q*n) as usize)', 'verdict': 'same terms'})
+    else:
+        m.violated_structurally('C03:rank-terms:wilson-arguments', 'C03:rank:wilson-arguments', 'Stats::ci does not hand (confidence, n, round(q*n)) to ci_wilson: %s' % [mir.show(a[2])[:80] for _, a in rec][:2])
+    seen = set()
+    good = True
+    for r in res:
+        if r.kind == 'panic':
+            m.submit('C03:rank-terms:no-panic[%s]' % r.value[1][:30], r.pc + [T.mk('ige', n, T.iconst(4)), T.mk('fle', T.fconst(0), LO), T.mk('fle', LO, HI), T.mk('fle', HI, T.fconst(1))], T.bconst(False), sem=('R', 'int'), key='C03:rank:panic', vacuity=False)
+            continue
+        if r.kind != 'return' or not E.is_ok(r.value):
+            continue
+        variant, bounds = E.interval_parts(r.value)
+        k = E.pc_kind(r.pc)
+        seen.add(k)
+        want = {0: [idx(LO), idx(HI)], 1: [idx(LO)], 2: [idx(HI)]}.get(k)
+        if k is None or variant != VARIANT[k] or bounds != want:
+            good = False
+            m.violated_structurally('C03:rank-terms:ranks:' + (KNAME[k] if k is not None else '?'), 'C03:rank:floor-of-wilson-bounds',
+                                    'ranks are not min(floor(p*n), n-1) of the Wilson bounds for kind %s: %s' % (k, [T.show(b)[:70] for b in bounds]))
+    if good and seen == {0, 1, 2}:
+        ctx.record('C03:rank-terms:ranks', 'M', 'held', bound='syntactic, every n, every kind', sample={'obligation': 'ranks == min(floor(p*n) as usize, n-1) of the Wilson bounds; kind -> shape', 'verdict': 'same terms'})
+    elif seen != {0, 1, 2}:
+        m.stuck('C03:rank-terms:coverage', 'Ok paths for kinds %s only' % sorted(x for x in seen if x is not None))
+    # rejections: InvalidQuantile exactly when not (0 < q < 1); TooFewSamples exactly when n < 4 (given a valid q)
+    validq = T.and_(T.mk('flt', T.fconst(0), q), T.mk('flt', q, T.fconst(1)))
+    contract = [T.mk('fle', T.fconst(0), LO), T.mk('fle', LO, HI), T.mk('fle', HI, T.fconst(1))]      # Wilson bounds lie in [0,1] (C02/C17)
+    for r in res:
+        if r.kind == 'return' and E.is_err(r.value, 'InvalidQuantile'):
+            m.submit('C03:rank-terms:invalid-quantile-only-outside', r.pc + contract, T.not_(validq), sem=('R', 'int'), key='C03:rank:invalid-quantile-variant', vacuity=False)
+        elif r.kind == 'return' and E.is_err(r.value, 'TooFewSamples'):
+            m.submit('C03:rank-terms:too-few-samples-only-below-4', r.pc, T.and_(validq, T.mk('ilt', n, T.iconst(4))), sem=('R', 'int'), key='C03:rank:too-few-samples-variant', vacuity=False)
+        elif r.kind == 'return' and E.is_ok(r.value):
+            m.submit('C03:rank-terms:ok-only-inside:%s' % KNAME[E.pc_kind(r.pc)], r.pc, T.and_(validq, T.mk('ige', n, T.iconst(4))), sem=('R', 'int'), key='C03:rank:ok-outside-domain', vacuity=False)
+    m.collect()
